@@ -128,7 +128,7 @@ class G:
     def fkopts(self):
         r = self.r
         return {"onupdate": r.choice([None, None, "CASCADE"]), "ondelete": r.choice([None, "SET NULL", "CASCADE"]),
-                "initially": r.choice([None, None, "DEFERRED"]), "deferrable": r.choice([None, None, True]),
+                "initially": r.choice([None, None, "DEFERRED"]), "deferrable": r.choice([None, None, True, False]),
                 "use_alter": r.random() < .1, "match": r.choice([None, None, "FULL"])}
 
     def table(self):
@@ -145,7 +145,7 @@ class G:
             cons.append(k)
         if r.random() < .5:
             cons.append({"k": "uq", "cols": r.sample(names, r.randint(1, min(2, len(names)))), "name": self.cname(),
-                         "deferrable": r.choice([None, None, True]), "initially": r.choice([None, None, "DEFERRED"])})
+                         "deferrable": r.choice([None, None, True, False]), "initially": r.choice([None, None, "DEFERRED"])})
         if r.random() < .4:
             cons.append({"k": "ck", "sql": r.choice(SQLS), "name": self.cname()})
         return {"name": self.name(), "schema": self.oname(.4), "cols": cols, "cons": cons,
@@ -183,7 +183,7 @@ class G:
                     "if_x": r.choice([None, None, True, False])}
         if kind == "create_unique":
             return {"k": kind, "cols": [self.name() for _ in range(r.randint(1, 2))], "name": self.cname(),
-                    "deferrable": r.choice([None, None, True]), "initially": r.choice([None, None, "DEFERRED"])}
+                    "deferrable": r.choice([None, None, True, False]), "initially": r.choice([None, None, "DEFERRED"])}
         if kind == "create_fk":
             k = {"k": kind, "cols": [self.name()], "reftable": "p_" + self.name(), "refschema": self.oname(.3), "refcols": [self.name()],
                  "name": self.cname()}
